@@ -28,6 +28,8 @@ pub enum LTy {
     Io(Box<LTy>),
     /// `Result<T, E>` with an error type of the vocabulary (or `()`): `Except E T`
     Res(Box<LTy>, Box<LTy>),
+    /// a tuple `(A, B, …)`
+    Tup(Vec<LTy>),
     List(Box<LTy>),
     Unknown,
 }
@@ -47,6 +49,7 @@ impl LTy {
             LTy::Opt(t) => format!("(Option {})", t.lean()),
             LTy::Io(t) => format!("(Rs.IoRes {})", t.lean()),
             LTy::Res(t, e) => format!("(Except {} {})", e.lean(), t.lean()),
+            LTy::Tup(ts) => format!("({})", ts.iter().map(|t| t.lean()).collect::<Vec<_>>().join(" × ")),
             LTy::List(t) => format!("(List {})", t.lean()),
             LTy::Unknown => "_".into(),
         }
@@ -211,6 +214,10 @@ pub fn lty(t: &Type, tparams: &[String], self_ty: Option<&LTy>, reg: &Registry, 
             _ => LTy::Unknown,
         },
         Type::Tuple(t) if t.elems.is_empty() => LTy::Unit,
+        Type::Tuple(t) => {
+            let ts: Vec<LTy> = t.elems.iter().map(|e| lty(e, tparams, self_ty, reg, lreg)).collect();
+            if ts.contains(&LTy::Unknown) { LTy::Unknown } else { LTy::Tup(ts) }
+        }
         Type::Path(p) => {
             let seg = p.path.segments.last().unwrap();
             let n = seg.ident.to_string();
